@@ -10,6 +10,12 @@ from .types import (TInt, TBool, TNone, TBytes, TStr, TFloat, TRef, TPkt, TOpt, 
 from .core import PyExc, ExcVal, exc_is_subclass
 
 
+def dict_ix_fn(t):
+    '''position of a key in the key list of a dict (see dict_keys)'''
+    from .types import _tname
+    return z3.Function('dict_key_ix_' + _tname(t), t.sort(), t.k.sort(), z3.IntSort())
+
+
 class BuiltinMixin:
 
     # ------------------------------------------------------------- functions
@@ -49,9 +55,17 @@ class BuiltinMixin:
                 a = V(a.t.inner, a.t.val(a.z))
             if isinstance(b.t, TOpt):
                 b = V(b.t.inner, b.t.val(b.z))
+            a, b = self.union_int(a), self.union_int(b)
             x, y = self.as_int(a), self.as_int(b)
             cur = mk_int(z3.If(x <= y, x, y) if is_min else z3.If(x >= y, x, y))
         return cur
+
+    def union_int(self, v):
+        '''A union value used as a number: the integer alternative (TypeError otherwise).'''
+        if isinstance(v.t, TUnion) and any(n == 'int' for n, _ in v.t.alts):
+            self.need(v.t.is_('int', v.z), 'TypeError')
+            return V(TInt, v.t.get('int', v.z))
+        return v
 
     def bi_min(self, args, kwargs, node):
         return self._minmax(args, True)
@@ -105,8 +119,6 @@ class BuiltinMixin:
             return mk_bytes_const(b'')
         v = args[0]
         if v.t is TBytes:
-            return V(TBytes, v.z)
-        if isinstance(v.t, TList) and v.t.elem is TInt:
             return V(TBytes, v.z)
         if isinstance(v.t, TPkt):
             return self.pkt_bytes(v)
@@ -328,15 +340,16 @@ class BuiltinMixin:
                 raise Unsupported('container mutated while being iterated')
 
     def list_method(self, expr, recv, name, args):
+        from . import lists as L
         t = recv.t
-        n = z3.Length(recv.z)
+        n = L.l_len(t, recv.z)
         if name == 'append':
             self.check_not_iterated(recv)
             if recv.py == ('emptylist',):
                 t = TList(args[0].t)
-                new = V(t, z3.Unit(args[0].z), lval=recv.lval)
+                new = V(t, L.l_from_items(t, [args[0].z]), lval=recv.lval)
             else:
-                new = V(t, z3.Concat(recv.z, z3.Unit(coerce(args[0], t.elem).z)), lval=recv.lval)
+                new = V(t, L.l_append(t, recv.z, self.key_of(args[0], t.elem).z), lval=recv.lval)
             self.store_back(expr, recv, new)
             return NONE
         if name == 'pop':
@@ -353,9 +366,9 @@ class BuiltinMixin:
             else:
                 self.need(n > 0, 'IndexError')
                 idx = n - 1
-            el = V(t.elem, recv.z[idx])
+            el = V(t.elem, L.l_get(t, recv.z, idx))
             self.assume_wf(el)
-            new = V(t, z3.simplify(z3.Concat(z3.Extract(recv.z, 0, idx), z3.Extract(recv.z, idx + 1, n - idx - 1))), lval=recv.lval)
+            new = V(t, L.l_remove_at(t, recv.z, idx), lval=recv.lval)
             self.store_back(expr, recv, new)
             return el
         if name == 'insert':
@@ -365,36 +378,40 @@ class BuiltinMixin:
             el = coerce(args[1], t.elem) if recv.py != ('emptylist',) else args[1]
             if recv.py == ('emptylist',):
                 t = TList(el.t)
-                new = V(t, z3.Unit(el.z), lval=recv.lval)
+                new = V(t, L.l_from_items(t, [el.z]), lval=recv.lval)
             elif ci is not None and ci < 0:
                 # insert(-k, x): position max(n-k, 0)
                 pos = z3.If(n + ci < 0, 0, n + ci)
-                new = V(t, z3.Concat(z3.Extract(recv.z, 0, pos), z3.Unit(el.z), z3.Extract(recv.z, pos, n - pos)), lval=recv.lval)
+                new = V(t, L.l_insert_at(t, recv.z, pos, el.z), lval=recv.lval)
             else:
                 self.nonneg_or_unsupported(idx, 'insert index')
                 pos = z3.If(idx > n, n, idx)
-                new = V(t, z3.Concat(z3.Extract(recv.z, 0, pos), z3.Unit(el.z), z3.Extract(recv.z, pos, n - pos)), lval=recv.lval)
+                new = V(t, L.l_insert_at(t, recv.z, pos, el.z), lval=recv.lval)
             self.store_back(expr, recv, new)
             return NONE
-        if name == 'remove':
-            self.check_not_iterated(recv)
+        if name in ('remove', 'index'):
+            if name == 'remove':
+                self.check_not_iterated(recv)
             if recv.py == ('emptylist',):
                 self.py_raise('ValueError')
-            el = coerce(args[0], t.elem)
-            self.need(z3.Contains(recv.z, z3.Unit(el.z)), 'ValueError')
-            i = z3.IndexOf(recv.z, z3.Unit(el.z), 0)
-            new = V(t, z3.Concat(z3.Extract(recv.z, 0, i), z3.Extract(recv.z, i + 1, n - i - 1)), lval=recv.lval)
+            el = self.key_of(args[0], t.elem)
+            self.need(L.l_contains(t, recv.z, el.z), 'ValueError')
+            # first occurrence
+            k = z3.Int(fresh_name('first_ix'))
+            j = z3.Int('fi_j')
+            sel = L.l_get(t, recv.z, j)
+            self.assume(z3.And(k >= 0, k < n, L.l_get(t, recv.z, k) == el.z,
+                               L.forall([j], z3.Implies(z3.And(j >= 0, j < k), sel != el.z), patterns=[sel])))
+            if name == 'index':
+                return mk_int(k)
+            new = V(t, L.l_remove_at(t, recv.z, k), lval=recv.lval)
             self.store_back(expr, recv, new)
             return NONE
-        if name == 'index':
-            el = coerce(args[0], t.elem)
-            self.need(z3.Contains(recv.z, z3.Unit(el.z)), 'ValueError')
-            return mk_int(z3.IndexOf(recv.z, z3.Unit(el.z), 0))
         if name == 'clear':
-            self.store_back(expr, recv, V(t, z3.Empty(t.sort()), lval=recv.lval))
+            self.store_back(expr, recv, V(t, L.l_empty(t), lval=recv.lval))
             return NONE
         if name == 'extend':
-            new = V(t, z3.Concat(recv.z, coerce(args[0], t).z), lval=recv.lval)
+            new = V(t, L.l_concat(t, recv.z, coerce(args[0], t).z), lval=recv.lval)
             self.store_back(expr, recv, new)
             return NONE
         if name == 'copy':
@@ -416,7 +433,7 @@ class BuiltinMixin:
         dom, mp = t.dom(recv.z), t.map(recv.z)
         if name == 'get':
             try:
-                k = coerce(args[0], t.k)
+                k = self.key_of(args[0], t.k)
             except Unsupported:
                 return args[1] if len(args) > 1 else NONE
             dflt = args[1] if len(args) > 1 else NONE
@@ -428,7 +445,7 @@ class BuiltinMixin:
                 return v
             return dflt
         if name == 'pop':
-            k = coerce(args[0], t.k)
+            k = self.key_of(args[0], t.k)
             if len(args) > 1:
                 if not self.branch(z3.Select(dom, k.z)):
                     return args[1]
@@ -448,7 +465,7 @@ class BuiltinMixin:
             self.store_back(expr, recv, V(t, t.mk(t.empty_dom(), mp), lval=recv.lval))
             return NONE
         if name == 'setdefault':
-            k = coerce(args[0], t.k)
+            k = self.key_of(args[0], t.k)
             if self.branch(z3.Select(dom, k.z)):
                 return V(t.v, z3.Select(mp, k.z))
             v = coerce(args[1], t.v)
@@ -467,11 +484,21 @@ class BuiltinMixin:
         key = ('dk', ks.get_id())
         if key not in self.wf_seen:
             self.wf_seen.add(key)
-            k = z3.Const(fresh_name('k'), t.k.sort())
-            i = z3.Int(fresh_name('i'))
-            j = z3.Int(fresh_name('j'))
-            self.assume(z3.ForAll([k], z3.Select(t.dom(d.z), k) == z3.Contains(ks, z3.Unit(k))))
-            self.assume(z3.ForAll([i, j], z3.Implies(z3.And(0 <= i, i < j, j < z3.Length(ks)), ks[i] != ks[j])))
+            from . import lists as L
+            k = z3.Const('dk_k', t.k.sort())
+            i = z3.Int('dk_i')
+            j = z3.Int('dk_j')
+            self.assume(L.canon(lt, ks))
+            ai, aj = L.l_get(lt, ks, i), L.l_get(lt, ks, j)
+            # every listed key is in the domain; every key of the domain is listed (index function); no duplicates
+            ix = dict_ix_fn(t)
+            self.assume(L.forall([i], z3.Implies(z3.And(0 <= i, i < L.l_len(lt, ks)), z3.Select(t.dom(d.z), ai)), patterns=[ai]))
+            self.assume(z3.ForAll([k], z3.Implies(z3.Select(t.dom(d.z), k),
+                                                  z3.And(0 <= ix(d.z, k), ix(d.z, k) < L.l_len(lt, ks),
+                                                         L.l_get(lt, ks, ix(d.z, k)) == k)),
+                                  patterns=[z3.Select(t.dom(d.z), k)]))
+            self.assume(L.forall([i, j], z3.Implies(z3.And(0 <= i, i < j, j < L.l_len(lt, ks)), ai != aj),
+                                 multi=[(ai, aj)]))
         return V(lt, ks)
 
     def set_method(self, expr, recv, name, args):
@@ -482,7 +509,7 @@ class BuiltinMixin:
                 recv = V(t, t.empty(), lval=recv.lval)
             else:
                 raise Unsupported('method %s on empty set()' % name)
-        el = coerce(args[0], t.elem) if args else None
+        el = self.key_of(args[0], t.elem) if args else None
         if name == 'add':
             self.store_back(expr, recv, V(t, z3.Store(recv.z, el.z, True), lval=recv.lval))
             return NONE
@@ -540,6 +567,8 @@ class BuiltinMixin:
         content = self.read_heap(recv, ck, TBytes)
         pos = self.read_heap(recv, pk, TInt)
         n = z3.Length(content.z)
+        # assumption (listed in evidence): no in-memory buffer holds 2^62 octets or more
+        self.assume(n < 2 ** 62)
         if name == 'tell':
             return pos
         if name == 'seek':
